@@ -131,7 +131,18 @@ theorem standard_reading (c : Circuit) (seq : List Op) (hsub : ∀ op ∈ seq, o
     (∃ p, toOpenqasm c seq = .ok p ∧ qasmStd p = stdSpec seq) ∧ stdOfCircuit seq = .ok (stdSpec seq) :=
   ⟨qasmStd_toOpenqasm c seq hsub, stdOfCircuit_spec seq⟩
 
-/-! ## 6. Determinism -/
+/-! ## 6. Text level: register tokens of any length survive the slicing of the parser -/
+
+/-- the importer reads register indices with `int(tok[1:-3])` (single-register and target tokens `<t><n>[0]`) and
+    `int(tok[1:-4])` (control token `<t><n>[0],`).  For every register — any number of digits — these recover type and
+    index from the token the exporter writes, and `int(str(n)) = n` for the model's printer/reader. -/
+theorem register_tokens_roundtrip (q : QReg) :
+    regToken 3 (q.render ++ "[0]".toList) = .ok (q.t.ch, q.i) ∧
+    regToken 4 (q.render ++ "[0],".toList) = .ok (q.t.ch, q.i) ∧
+    regTOfChar q.t.ch = some q.t ∧ readNat (showNat q.i) = some q.i :=
+  ⟨regToken_single q, regToken_control q, regTOfChar_ch q.t, readNat_showNat q.i⟩
+
+/-! ## 7. Determinism -/
 
 /-- export is a function of (registers, operations as added, `sequence()` order): the model has no other state.
     (That the *implementation* has none — exporting twice, exporting a deep copy, exporting a rebuilt circuit — is what
@@ -161,5 +172,11 @@ example : (match toOpenqasm demo demo.ops with
     | .ok p => decide (qasmStd p = stdSpec demo.ops) && !(qasmStd p).isEmpty
     | .error _ => false) = true := by decide +kernel
 example : ∀ g ∈ [G1.H, G1.Sdg, G1.Z], g ≠ G1.I := by decide +kernel
+/-- the text-level parser (regexes, slicing) reads the rendered text of the demo program to the same circuit as the
+    statement-level parser of the theorems; register e12 has a two-digit index -/
+example : (toOpenqasm demo demo.ops).bind (fun p => fromOpenqasmText p.render) = (toOpenqasm demo demo.ops).bind fromOpenqasm := by
+  decide +kernel
+example : fromOpenqasmText "OPENQASM 2.0;\nqreg e0[1];qreg e1[1];qreg e2[1];qreg e3[1];qreg e4[1];qreg e5[1];qreg e6[1];qreg e7[1];qreg e8[1];qreg e9[1];qreg e10[1];qreg e11[1];qreg e12[1];\nCX e12[0], e3[0];".toList =
+    .ok ⟨13, 0, 0, [.ctrl .CNOT ⟨.e, 12⟩ ⟨.e, 3⟩]⟩ := by decide +kernel
 
 end Graphiq.C14
